@@ -211,6 +211,26 @@ def rule_db_classes(ctx) -> None:
             # the zero-total-length IVT is only legitimate for unauthenticated plain images
             if "Mbi_MixinIvtZeroTotalLength" in mix and it != "PLAIN_IMAGE":
                 chk.bad("C01.db-classes", f"{where} {cname}", f"image type {it} uses Mbi_MixinIvtZeroTotalLength: the IVT total-length word is written as 0 although the image is authenticated", "the real total length for CRC/signed/encrypted images", dbfile)
+            # a composition that carries an HMAC (load-to-RAM authenticated images): everything behind the IVT is shifted by the HMAC
+            # (and the key store when the image flags announce one), so every mixin of it that locates data from the certificate
+            # block offset must apply that shift in mix_parse - the siblings agree (C01.parse-offset-siblings)
+            if any(k.name.startswith("Mbi_MixinHmac") for k in mro):
+                for k in mro:
+                    lst0 = k.methods.get("mix_parse")
+                    if not lst0 or "get_cert_block_offset" not in norm(lst0[0].node):
+                        continue
+                    if next((kk for kk in mro if kk.method("mix_parse") is not None and kk is k), None) is None:
+                        continue
+                    t0 = norm(lst0[0].node)
+                    gp0 = A.gpaths(lst0[0].node)
+                    shifted = "self.HMAC_SIZE" in t0 and "KeyStore.KEY_STORE_SIZE" in t0 and any(q.assumes("hasattr(self, 'hmac_key')", True) for q in gp0) \
+                        and any(q.assumes("self.ivt_table.get_key_store_presented(data)", True) for q in gp0)
+                    key2 = ("offs", k.name)
+                    if key2 in seen_comp:
+                        continue
+                    seen_comp[key2] = where
+                    chk.decide(shifted, "C01.parse-offset-siblings", f"{MIX}::{k.name}.mix_parse", f"offsets derived from the certificate block offset are shifted by HMAC_SIZE (+ KEY_STORE_SIZE when announced) in compositions with an HMAC (first seen: {where} {cname})",
+                               f"{k.name}.mix_parse locates data from get_cert_block_offset(data) without the HMAC / key store shift, but {where} {cname} inserts an HMAC behind the IVT", "offset += self.HMAC_SIZE (+ KeyStore.KEY_STORE_SIZE)", dbfile)
             # attributes the export mixins use without hasattr() must be provided by some mixin of the class
             provided: Set[str] = set()
             for k in mro:
